@@ -90,7 +90,11 @@ class IntegratorTemplate(abc.ABC):
                 self.solver_dict["epsilon_last_last"], self.solver_dict["epsilon_last"] = epsilon_last, epsilon_current
             corr = (1 + D.ar_numpy.arctan((safety_factor * corr - 1)))
             timestep = corr * timestep
-            return timestep, bool(corr < 0.9**2)
+            redo_step = bool(corr < 0.9**2)
+            if redo_step:
+                # a rejected (possibly wildly inaccurate) attempt must not set the error scale of its retry
+                self.solver_dict.pop("system_scaling", None)
+            return timestep, redo_step
 
     def get_error_estimate(self):
         return 0.0
